@@ -1,6 +1,8 @@
 package checks
 
 import (
+	"fmt"
+	"log"
 	"reflect"
 
 	"github.com/tormoder/fit"
@@ -14,6 +16,21 @@ func reflectValue(v interface{}) reflect.Value { return reflect.ValueOf(v) }
 func optionList(mask int, lg fit.Logger, perm uint64) []fit.DecodeOption {
 	var sel []fit.DecodeOption
 	orders := [6][3]int{{0, 1, 2}, {0, 2, 1}, {1, 0, 2}, {1, 2, 0}, {2, 0, 1}, {2, 1, 0}}
+	// the logger's dynamic type rotates: the caller's pointer, a struct value, a function value,
+	// an array value, or a *log.Logger that writes into the caller's logger
+	if lg != nil {
+		switch perm / 48 % 5 {
+		case 1:
+			lg = valueLogger{lg}
+		case 2:
+			inner := lg
+			lg = funcLogger(func(s string) { inner.Print(s) })
+		case 3:
+			lg = arrayLogger{lg}
+		case 4:
+			lg = log.New(logWriter{lg}, "", 0)
+		}
+	}
 	mk := func(bit int) fit.DecodeOption {
 		switch bit {
 		case 0:
@@ -37,3 +54,26 @@ func optionList(mask int, lg fit.Logger, perm uint64) []fit.DecodeOption {
 	}
 	return sel
 }
+
+// Loggers of other dynamic kinds than a pointer; all of them hand on to an inner logger.
+type valueLogger struct{ inner fit.Logger }
+
+func (l valueLogger) Print(a ...interface{})            { l.inner.Print(a...) }
+func (l valueLogger) Printf(f string, a ...interface{}) { l.inner.Printf(f, a...) }
+func (l valueLogger) Println(a ...interface{})          { l.inner.Println(a...) }
+
+type funcLogger func(string)
+
+func (l funcLogger) Print(a ...interface{})            { l(fmt.Sprint(a...)) }
+func (l funcLogger) Printf(f string, a ...interface{}) { l(fmt.Sprintf(f, a...)) }
+func (l funcLogger) Println(a ...interface{})          { l(fmt.Sprintln(a...)) }
+
+type arrayLogger [1]fit.Logger
+
+func (l arrayLogger) Print(a ...interface{})            { l[0].Print(a...) }
+func (l arrayLogger) Printf(f string, a ...interface{}) { l[0].Printf(f, a...) }
+func (l arrayLogger) Println(a ...interface{})          { l[0].Println(a...) }
+
+type logWriter struct{ inner fit.Logger }
+
+func (w logWriter) Write(p []byte) (int, error) { w.inner.Print(string(p)); return len(p), nil }
